@@ -397,3 +397,84 @@ def find_separating_point(diff_expr, hyps, tries=200, seed=0, ranges=None):
         except Exception:
             continue
     return None, None
+
+
+# ---------------------------------------------------------------------------------------------
+def refute_by_point(diffs, hyps, tries=60, seed=0):
+    """search an exact rational point where some `diff` != 0 and all hyps hold.  Symbols get random rationals;
+    uninterpreted applications WITHOUT axiom schemas get arbitrary rationals keyed by their argument values
+    (functional consistency); abs_/sign_ get their true values.  Any other interpreted symbol (sqrt_, exp_, ...) -> give up."""
+    rnd = random.Random(seed)
+    exprs = [sp.sympify(d) for d in diffs]
+    allx = exprs + [h for h in hyps if isinstance(h, sp.Basic)]
+    syms = set()
+    apps = set()
+    for e in allx:
+        for a in sp.preorder_traversal(e):
+            if isinstance(a, sp.Symbol):
+                syms.add(a)
+            elif isinstance(a, sp.core.function.AppliedUndef):
+                apps.add(a)
+    for a in apps:
+        if a.func.__name__ in T.AXIOMS and a.func.__name__ not in ("abs_", "sign_"):
+            return None
+    syms = sorted(syms, key=str)
+    for _ in range(tries):
+        pt = {s_: sp.Rational(rnd.randint(1, 40), rnd.randint(1, 9)) * rnd.choice([1, 1, 1, -1]) for s_ in syms}
+        table = {}
+        def val(e):
+            if isinstance(e, sp.Symbol):
+                return pt[e]
+            if e.is_Rational:
+                return e
+            if isinstance(e, sp.core.function.AppliedUndef):
+                args = tuple(val(a) for a in e.args)
+                nm = e.func.__name__
+                if nm == "abs_":
+                    return abs(args[0])
+                if nm == "sign_":
+                    return sp.sign(args[0])
+                key = (nm, args)
+                if key not in table:
+                    table[key] = sp.Rational(rnd.randint(1, 30), rnd.randint(1, 7))
+                return table[key]
+            if isinstance(e, sp.Add):
+                return sum((val(a) for a in e.args), sp.Integer(0))
+            if isinstance(e, sp.Mul):
+                r = sp.Integer(1)
+                for a in e.args:
+                    r *= val(a)
+                return r
+            if isinstance(e, sp.Pow):
+                b, ex = val(e.base), e.exp
+                if not ex.is_Integer:
+                    raise NFError("power")
+                if b == 0 and ex < 0:
+                    raise ZeroDivisionError
+                return b ** ex
+            raise NFError(type(e).__name__)
+        def bval(c):
+            if c is sp.true or c is True:
+                return True
+            if c is sp.false or c is False:
+                return False
+            if isinstance(c, sp.And):
+                return all(bval(a) for a in c.args)
+            if isinstance(c, sp.Or):
+                return any(bval(a) for a in c.args)
+            if isinstance(c, sp.Not):
+                return not bval(c.args[0])
+            l, r = val(c.lhs), val(c.rhs)
+            return bool({sp.Eq: l == r, sp.Ne: l != r, sp.Lt: l < r, sp.Le: l <= r, sp.Gt: l > r, sp.Ge: l >= r}[type(c)] if type(c) in (sp.Eq, sp.Ne, sp.Lt, sp.Le, sp.Gt, sp.Ge) else False)
+        try:
+            if not all(bval(h) for h in hyps):
+                continue
+            for i, d in enumerate(exprs):
+                v = val(d)
+                if v != 0:
+                    model = {str(k): str(v_) for k, v_ in pt.items()}
+                    model["_uninterpreted_values"] = {f"{k[0]}{tuple(str(x) for x in k[1])}": str(v_) for k, v_ in list(table.items())[:20]}
+                    return dict(model=model, value=str(v), index=i)
+        except (ZeroDivisionError, NFError):
+            continue
+    return None
